@@ -326,7 +326,9 @@ func drawEncoded(t *rapid.T, kind string, max int) StreamSpec {
 
 // drawValidStream draws a stream that is valid by construction.
 func drawValidStream(t *rapid.T, max int) StreamSpec {
-	switch rapid.IntRange(0, 9).Draw(t, "skind") {
+	switch rapid.IntRange(0, 10).Draw(t, "skind") {
+	case 10:
+		return StreamSpec{Kind: "raw", Raw: longHeaderStream(rapid.Uint64().Draw(t, "lhseed"), rapid.IntRange(0, 3).Draw(t, "lhblocks"), rapid.IntRange(0, 120).Draw(t, "lhpayload"))}
 	case 0, 1:
 		return drawEncoded(t, "std", max)
 	case 2, 3:
@@ -462,4 +464,103 @@ func smallStream(i int) StreamSpec {
 		s = StreamSpec{Kind: "fast", Data: &r, Set: &set, Ops: opsOneWriteFlushMid(r.Len())}
 	}
 	return s
+}
+
+
+// longHeaderStream hand-builds dynamic blocks whose headers are (nearly) as long as DEFLATE allows: HLIT=286,
+// HDIST=30, HCLEN=19, every one of the 316 code lengths sent as its own 6- or 7-bit code-length symbol (no
+// run-length symbols), 280..286 bytes per header. No compressor emits this (they choose the code-length code
+// by frequency), and the synthesiser's Huffman-built code-length code gives frequent lengths short codes.
+// pre non-final blocks of that shape come before the final one; every block holds npay literals.
+func longHeaderStream(seed uint64, pre, npay int) []byte {
+	rnd := func() uint64 { seed = seed*6364136223846793005 + 1442695040888963407; return seed >> 33 }
+	var out []byte
+	var acc uint64
+	var nacc uint
+	bits := func(v uint32, n uint) {
+		acc |= uint64(v) << nacc
+		nacc += n
+		for nacc >= 8 {
+			out = append(out, byte(acc))
+			acc >>= 8
+			nacc -= 8
+		}
+	}
+	huff := func(code uint32, n uint) {
+		for i := int(n) - 1; i >= 0; i-- {
+			bits((code>>uint(i))&1, 1)
+		}
+	}
+	canon := func(lens []int) []uint32 {
+		codes := make([]uint32, len(lens))
+		code := uint32(0)
+		for l := 1; l <= 15; l++ {
+			for s, sl := range lens {
+				if sl == l {
+					codes[s] = code
+					code++
+				}
+			}
+			code <<= 1
+		}
+		return codes
+	}
+	for b := 0; b <= pre; b++ {
+		// code-length code: lengths 1,2,3,4,5 on symbols the body never uses, 7,7,7,7 on the four it does
+		// (Kraft sum exactly 1); variant: 1,2,3,4,6,6 + 7,7 ... kept to the one complete shape, symbols permuted
+		cl := make([]int, 19)
+		unused := []int{0, 18, 17, 16, 7, 1, 2, 3, 6, 10, 11, 12, 13, 14, 15}
+		for i := 0; i < 5; i++ {
+			j := i + int(rnd()%uint64(len(unused)-i))
+			unused[i], unused[j] = unused[j], unused[i]
+			cl[unused[i]] = i + 1
+		}
+		cl[4], cl[5], cl[8], cl[9] = 7, 7, 7, 7
+		clc := canon(cl)
+		// lit/len: 226 codes of 8 bits and 60 of 9 (complete), positions shuffled; distance: 2 of 4 bits, 28 of 5
+		lit := make([]int, 286)
+		for i := range lit {
+			lit[i] = 8
+			if i >= 226 {
+				lit[i] = 9
+			}
+		}
+		for i := len(lit) - 1; i > 0; i-- {
+			j := int(rnd() % uint64(i+1))
+			lit[i], lit[j] = lit[j], lit[i]
+		}
+		dist := make([]int, 30)
+		for i := range dist {
+			dist[i] = 5
+		}
+		dist[rnd()%15], dist[15+rnd()%15] = 4, 4
+		litc := canon(lit)
+		final := uint32(0)
+		if b == pre {
+			final = 1
+		}
+		bits(final, 1)
+		bits(2, 2)
+		bits(29, 5)
+		bits(29, 5)
+		bits(15, 4)
+		for _, s := range []int{16, 17, 18, 0, 8, 7, 9, 6, 10, 5, 11, 4, 12, 3, 13, 2, 14, 1, 15} {
+			bits(uint32(cl[s]), 3)
+		}
+		for _, l := range lit {
+			huff(clc[l], uint(cl[l]))
+		}
+		for _, l := range dist {
+			huff(clc[l], uint(cl[l]))
+		}
+		for i := 0; i < npay; i++ {
+			c := int(rnd() % 256)
+			huff(litc[c], uint(lit[c]))
+		}
+		huff(litc[256], uint(lit[256]))
+	}
+	if nacc > 0 {
+		out = append(out, byte(acc))
+	}
+	return out
 }
